@@ -358,7 +358,7 @@ def systematic_cases():
 
 def plan(tier, seed):
     n = 16
-    per = 8000 if tier == 'quick' else 40000
+    per = 8000 if tier == 'quick' else 150000
     return [dict(part=i, nparts=n, seed=seed * 100 + i, n=per) for i in range(n)]
 
 
